@@ -72,6 +72,19 @@ class AppRun:
         self.aborted = None
 
 
+CB_EXC = {None: "RuntimeError", "runtime": "RuntimeError", "conn_closed": "WebSocketConnectionClosedException", "conn_reset": "ConnectionResetError",
+          "broken_pipe": "BrokenPipeError", "timeout": "WebSocketTimeoutException", "oserror": "OSError", "value": "ValueError",
+          "ws_exc": "WebSocketException", "protocol": "WebSocketProtocolException", "payload": "WebSocketPayloadException", "unicode": "UnicodeError",
+          "attr": "AttributeError", "stop_iteration": "StopIteration"}
+
+
+def _cb_exception(ws, kind):
+    """the exception class a user callback raises: a user's code may fail in any way - also with the exception types the
+    library itself uses for a lost connection (a relay forwarding to a second, dead connection)"""
+    name = CB_EXC[kind]
+    return getattr(ws, name, None) or getattr(__import__("builtins"), name)
+
+
 def validate_cb(cbs):
     for name, beh in cbs.items():
         if name not in CALLBACKS:
@@ -81,6 +94,8 @@ def validate_cb(cbs):
         kind = beh.get("do", "ok")
         if kind not in ("ok", "raise", "kbi", "close", "sysexit"):
             raise InvalidScenario("callback behaviour")
+        if beh.get("exc") not in CB_EXC or (beh.get("exc") is not None and kind != "raise"):
+            raise InvalidScenario("callback exception kind")
 
 
 def run_app(sc, choices=None, world_hook=None):
@@ -187,7 +202,7 @@ def run_app(sc, choices=None, world_hook=None):
                 nth = beh.get("nth")
                 if do != "ok" and (nth is None or nth == n):
                     if do == "raise":
-                        raise RuntimeError(f"boom-{name}-{n}")
+                        raise _cb_exception(ws, beh.get("exc"))(f"boom-{name}-{n}")
                     if do == "kbi":
                         raise KeyboardInterrupt()
                     if do == "sysexit":
